@@ -111,17 +111,19 @@ def batches(rng, tier):
     alld = {n: dims(n) for n in (1, 2, 3)}
     everyd = alld[1] + alld[2] + alld[3]
 
-    # ---- offset / in_range_dim / contents: every size, every position in a margin of 2, both instantiations
-    ops = [f"offs {t} {L(d)} 2" for t in "us" for d in everyd]
-    yield Batch("offset-all-sizes", ops, exhaustive=True, note="offset, in_range_dim, contents: all sizes 0..4^N, all positions with margin 2 (signed: also below 0)")
+    bigd = (dims(1, range(0, 7)) + dims(2, range(0, 7))) if thorough else []
+    mg = 3 if thorough else 2
+    # ---- offset / in_range_dim / contents: every size, every position in a margin, both instantiations
+    ops = [f"offs {t} {L(d)} {mg}" for t in "us" for d in everyd + bigd]
+    yield Batch("offset-all-sizes", ops, exhaustive=True, note=f"offset, in_range_dim, contents: all sizes 0..4^N (thorough: also 0..6 for N<=2), all positions with margin {mg} (signed: also below 0)")
 
-    # ---- at_optional / in_range: every size, every position in a margin of 2
-    ops = [f"ats {L(d)} {i % 3} 2" for i, d in enumerate(everyd)]
-    yield Batch("at-optional-all-sizes", ops, exhaustive=True, note="in_range + at_optional (const and mutable) for all positions 0 <= p_i < d_i + 2")
+    # ---- at_optional / in_range: every size, every position in a margin
+    ops = [f"ats {L(d)} {i % 3} {mg}" for i, d in enumerate(everyd + bigd)]
+    yield Batch("at-optional-all-sizes", ops, exhaustive=True, note=f"in_range + at_optional (const and mutable) for all positions 0 <= p_i < d_i + {mg}")
 
     # ---- whole-grid operations, one op per size
     ops = []
-    for i, d in enumerate(everyd):
+    for i, d in enumerate(everyd + bigd):
         s = L(d)
         ops += [f"mk {s} {i % 7}", f"mkc {s} {i % 5 - 2}", f"all {s}", f"refall {s} {i % 4}", f"fill {s} {-i} {i % 6}",
                 f"map {s} {i % 3} {i % 5 - 2} {i % 7 - 3}", f"apply {s} 1 {s} 2", f"apply {s} 1 {s} 2 {s} 3"]
@@ -130,35 +132,36 @@ def batches(rng, tier):
     # ---- pos_range: every (min, sup) in a window
     ops = []
     for n in (1, 2, 3):
-        if n < 3 or thorough:
-            wu, ws = (0, 6), (-2, 4)
+        if n < 3:
+            wu, ws = ((0, 8), (-3, 5)) if thorough else ((0, 6), (-2, 4))
         else:
-            wu, ws = (0, 4), (-2, 2)
+            wu, ws = ((0, 6), (-3, 3)) if thorough else ((0, 5), (-2, 3))
         for t, (lo, hi) in (("u", wu), ("s", ws)):
             ops += [f"ranges {t} {L(mn)} {lo} {hi}" for mn in tuples([lo] * n, [hi + 1] * n)]
     yield Batch("pos-range-all-min-sup", ops, exhaustive=True,
                 note="min_less_sup, range_dim, range_size = size(), end_position, visited positions for every (min,sup) in the window "
-                     "(N<=2: u 0..6, s -2..4; N=3: same in thorough, u 0..4 / s -2..2 in quick) - empty and inverted ranges included")
+                     "(quick: N<=2 u 0..6, s -2..4, N=3 u 0..5, s -2..3; thorough: N<=2 u 0..8, s -3..5, N=3 u 0..6, s -3..3) - empty and inverted ranges included")
 
     # ---- next_position on arbitrary current positions (also outside the range: the carry test at every index)
     ops = []
     for n in (1, 2, 3):
-        w = 4 if n < 3 else (3 if thorough else 2)
+        w = (5 if thorough else 4) if n < 3 else (4 if thorough else 3)
         for t, lo in (("u", 0), ("s", -1)):
             hi = lo + w
             prs = [(mn, sp) for mn in tuples([lo] * n, [hi + 1] * n) for sp in tuples([lo] * n, [hi + 1] * n)]
             ops += [f"nexts {t} {L(mn)} {L(sp)} {lo} {hi}" for mn, sp in prs]
-    yield Batch("next-position-window", ops, exhaustive=True, note="next_position for every current/min/sup in a window (width 5 for N<=2; N=3: 4 thorough, 3 quick)")
+    yield Batch("next-position-window", ops, exhaustive=True, note="next_position for every current/min/sup in a window (quick: 5 values per coordinate for N<=2, 4 for N=3; thorough: 6 and 5)")
 
     # ---- sub-ranges of a grid through the clamp helpers: every size, every signed (min, sup) from -1 to extent+1
     ops = []
     for n in (1, 2, 3):
-        ds = alld[n] if (n < 3 or thorough) else dims(3, [0, 1, 2])
+        ds = alld[n] if (n < 3 or thorough) else dims(3, [0, 1, 2, 3])
+        m = 2 if (thorough and n < 3) else 1
         for i, d in enumerate(ds):
-            ops += [f"refsubs {L(d)} {i % 3} {L(mn)} 1" for mn in tuples([-1] * n, [x + 2 for x in d])]
+            ops += [f"refsubs {L(d)} {i % 3} {L(mn)} {m}" for mn in tuples([-m] * n, [x + m + 1 for x in d])]
     yield Batch("sub-range-clamped-all", ops, exhaustive=True,
                 note="pos_ref_range(grid, clamped_min smin, clamped_sup_signed ssup) for all signed smin, ssup in [-1, extent+1]^N on every size "
-                     "(quick: N=3 only extents 0..2; the rest of N=3 is sampled below)")
+                     "(quick: N=3 only extents 0..3, the rest of N=3 is sampled below; thorough: margin 2 for N<=2)")
     if not thorough:
         r = rng.fork("refsub3")
         ops = []
@@ -169,21 +172,15 @@ def batches(rng, tier):
         yield Batch("sub-range-clamped-n3-sampled", ops, note="N=3 sizes with extents 0..4, random smin, all ssup")
 
     # ---- clamp helpers on every size
-    ops = [f"clamps {L(d)} 2" for d in everyd]
-    yield Batch("clamp-all-sizes", ops, exhaustive=True, note="clamped_min, clamped_sup_signed, clamped_sup for all signed positions in [-2, extent+2]^N")
+    ops = [f"clamps {L(d)} {mg}" for d in everyd + bigd]
+    yield Batch("clamp-all-sizes", ops, exhaustive=True, note=f"clamped_min, clamped_sup_signed, clamped_sup for all signed positions in [-{mg}, extent+{mg}]^N")
 
     # ---- resize: every (old size, new size)
     ops = []
     for n in (1, 2):
         ops += [f"resize {L(a)} 1 {L(b)} 2" for a in alld[n] for b in alld[n]]
-    if thorough:
-        ops += [f"resize {L(a)} 1 {L(b)} 2" for a in alld[3] for b in alld[3]]
-        yield Batch("resize-all-pairs", ops, exhaustive=True, note="resize for every pair (old size, new size), lvalue and rvalue overloads")
-    else:
-        yield Batch("resize-all-pairs-n12", ops, exhaustive=True, note="resize for every pair of sizes, N<=2")
-        r = rng.fork("resize3")
-        ops = [f"resize {L([r.range(0, 4) for _ in range(3)])} {r.below(5)} {L([r.range(0, 4) for _ in range(3)])} {r.below(5) + 5}" for _ in range(1500)]
-        yield Batch("resize-n3-sampled", ops, note="random pairs of 3-D sizes with extents 0..4")
+    ops += [f"resize {L(a)} 1 {L(b)} 2" for a in alld[3] for b in alld[3]]
+    yield Batch("resize-all-pairs", ops, exhaustive=True, note="resize for every pair (old size, new size) with extents 0..4, N in {1,2,3}, lvalue and rvalue overloads")
 
     # ---- apply with different sizes: every pair for N<=2, sampled for N=3 and for three grids
     ops = []
@@ -192,7 +189,7 @@ def batches(rng, tier):
     yield Batch("apply-all-pairs-n12", ops, exhaustive=True, note="apply on two grids of every pair of sizes (result empty unless equal)")
     r = rng.fork("apply")
     ops = []
-    for _ in range(3000 if thorough else 600):
+    for _ in range(6000 if thorough else 1000):
         n = r.choice([1, 2, 3, 3])
         a = [r.range(0, 4) for _ in range(n)]
 
@@ -214,7 +211,7 @@ def batches(rng, tier):
     # ---- larger sizes, sampled
     r = rng.fork("large")
     ops = []
-    for _ in range(2500 if thorough else 500):
+    for _ in range(20000 if thorough else 1500):
         n = r.choice([1, 2, 2, 3, 3])
         d = rdims(r, n)
         s = L(d)
